@@ -249,6 +249,9 @@ class Fr:
                 r = r * ca
         return r
 
+    def conjugate(s):
+        return s.conj()
+
     def nterms(s):
         return len(s.n) + sum(len(a) for a, _ in s.D)
 
